@@ -25,6 +25,8 @@ FUNCTIONS = [
 ]
 
 GATHER_CLASSES = [("VLeaf",), ("VBase",), ("VMany", "VReq"), ("VSubLeaf", "VStr2"), ("VMixed",)]
+# a class together with its subclass, a repeated class: asked of the trees that have both among the descendants
+GATHER_CLASSES_SUB = GATHER_CLASSES + [("VLeaf", "VSubLeaf"), ("VSubLeaf", "VLeaf", "VLeaf")]
 
 
 def _falsy_shapes() -> list[Any]:
@@ -134,7 +136,8 @@ def _mi_prepare(e, firsts=("MNamed", "MBodied", "MFunc", "MEmpty")):
     return [number(x) for x in shapes], {"class_used_first": first}
 
 
-def make_harness(shapes: list[Any], shared: bool = False, prepare=None, pred_objects: bool = False, predecessor: bool = False):
+def make_harness(shapes: list[Any], shared: bool = False, prepare=None, pred_objects: bool = False, predecessor: bool = False, gather_classes=None):
+    gather_classes = gather_classes or GATHER_CLASSES
     def harness(e):
         reset_all()
         extra_info: dict[str, Any] = {}
@@ -235,7 +238,7 @@ def make_harness(shapes: list[Any], shared: bool = False, prepare=None, pred_obj
                 e.fail("stream-mismatch:bfs", scenario=explain(got, want, scenario))
             _check_positions(e, root.bfs(), scenario)
         elif mode == "gather":
-            names = e.pick(GATHER_CLASSES, "classes")
+            names = e.pick(gather_classes, "classes")
             classes = tuple(CLASSES[n] for n in names)
             exact = e.bool("exact_type")
             arg = classes[0] if len(classes) == 1 else classes
@@ -398,7 +401,7 @@ def spec(tier: str, seed: int) -> Spec:
     fams.append(Family("predicate-objects", make_harness(po_shapes, pred_objects=True), variables="as above; prune / filter are callable objects that are falsy in a boolean context"))
     from models.shapes import exotic_shapes
 
-    fams.append(Family("exotic-classes", make_harness(exotic_shapes()), variables="as above; iterable / falsy / slotted / mixin classes, two tuple fields"))
+    fams.append(Family("exotic-classes", make_harness(exotic_shapes(), gather_classes=GATHER_CLASSES_SUB), variables="as above; iterable / falsy / slotted / mixin classes, two tuple fields"))
     pre_shapes = [x for x in shapes if recipe_size(x) >= 2][::5]
     for k in range(0, len(pre_shapes), 12):
         fams.append(Family(f"predecessor-walked[{k}:{k + 12}]", make_harness(pre_shapes[k : k + 12], predecessor=True), variables="as above; selector: how an equal tree with the same ids was walked and left the registry before"))
